@@ -11,10 +11,14 @@
 #define VERIF_HOOKS_DECL
 #include <stdint.h>
 #include <stdbool.h>
-enum { VOP_LOAD = 1, VOP_STORE, VOP_CASW, VOP_CASS, VOP_XCHG, VOP_ADD, VOP_SUB, VOP_AND, VOP_OR, VOP_YIELD, VOP_LOCK };
+enum { VOP_LOAD = 1, VOP_STORE, VOP_CASW, VOP_CASS, VOP_XCHG, VOP_ADD, VOP_SUB, VOP_AND, VOP_OR, VOP_YIELD, VOP_LOCK,
+       VOP_LOCKB /* blocking acquire succeeded (verif_post only) */, VOP_UNLOCK /* lock released (verif_post only) */ };
 int  verif_pre(int op, volatile void* p);                 // returns 1 when a weak CAS must fail spuriously
 void verif_post(int op, volatile void* p, int ok, uintptr_t oldv);
 uintptr_t verif_tid(void);
+// operand of the fetch_and / fetch_or that is being reported (valid inside the verif_post call of that operation):
+// `_mi_bitmap_unclaim` of a bit that is already clear leaves the word unchanged, so the target bit is only known from the operand
+static uintptr_t verif_opnd __attribute__((unused));
 #endif
 
 #undef  mi_atomic
@@ -40,17 +44,21 @@ uintptr_t verif_tid(void);
 #define verif_atomic_fetch_sub_explicit(p,x,mo) \
   ({ __typeof__(p) _p = (p); verif_pre(VOP_SUB,(void*)_p); uintptr_t _o = VERIF_RAW(_p); __typeof__(atomic_fetch_sub_explicit(_p,x,mo)) _v = atomic_fetch_sub_explicit(_p,x,mo); verif_post(VOP_SUB,(void*)_p,1,_o); _v; })
 #define verif_atomic_fetch_and_explicit(p,x,mo) \
-  ({ __typeof__(p) _p = (p); verif_pre(VOP_AND,(void*)_p); uintptr_t _o = VERIF_RAW(_p); __typeof__(atomic_fetch_and_explicit(_p,x,mo)) _v = atomic_fetch_and_explicit(_p,x,mo); verif_post(VOP_AND,(void*)_p,1,_o); _v; })
+  ({ __typeof__(p) _p = (p); __typeof__(atomic_fetch_and_explicit(_p,x,mo)) _x = (x); verif_pre(VOP_AND,(void*)_p); uintptr_t _o = VERIF_RAW(_p); verif_opnd = (uintptr_t)_x; __typeof__(atomic_fetch_and_explicit(_p,x,mo)) _v = atomic_fetch_and_explicit(_p,_x,mo); verif_post(VOP_AND,(void*)_p,1,_o); _v; })
 #define verif_atomic_fetch_or_explicit(p,x,mo) \
-  ({ __typeof__(p) _p = (p); verif_pre(VOP_OR,(void*)_p); uintptr_t _o = VERIF_RAW(_p); __typeof__(atomic_fetch_or_explicit(_p,x,mo)) _v = atomic_fetch_or_explicit(_p,x,mo); verif_post(VOP_OR,(void*)_p,1,_o); _v; })
+  ({ __typeof__(p) _p = (p); __typeof__(atomic_fetch_or_explicit(_p,x,mo)) _x = (x); verif_pre(VOP_OR,(void*)_p); uintptr_t _o = VERIF_RAW(_p); verif_opnd = (uintptr_t)_x; __typeof__(atomic_fetch_or_explicit(_p,x,mo)) _v = atomic_fetch_or_explicit(_p,_x,mo); verif_post(VOP_OR,(void*)_p,1,_o); _v; })
 
 #elif MI_VERIF_HOOK_POINT == 2
 
 #define mi_atomic_yield()        ((void)verif_pre(VOP_YIELD, NULL))
 // cooperative virtual threads share one OS thread: a blocking pthread lock would dead-lock
-static inline bool verif_lock_try(mi_lock_t* l)     { verif_pre(VOP_LOCK,(void*)l); return (pthread_mutex_trylock(l) == 0); }
-static inline void verif_lock_acquire(mi_lock_t* l) { while (!verif_lock_try(l)) { verif_pre(VOP_YIELD, NULL); } }
+// (the sequence of verif_pre calls -- the scheduling points -- is the same as before the lock events were reported:
+//  try = one point; blocking acquire = one point per attempt + a yield after a failed attempt; release = no point)
+static inline bool verif_lock_try(mi_lock_t* l)     { verif_pre(VOP_LOCK,(void*)l); bool ok = (pthread_mutex_trylock(l) == 0); verif_post(VOP_LOCK,(void*)l,ok ? 1 : 0,(uintptr_t)(ok ? 0 : 1)); return ok; }
+static inline void verif_lock_acquire(mi_lock_t* l) { for (;;) { verif_pre(VOP_LOCK,(void*)l); if (pthread_mutex_trylock(l) == 0) break; verif_pre(VOP_YIELD, NULL); } verif_post(VOP_LOCKB,(void*)l,1,0); }
+static inline void verif_lock_release(mi_lock_t* l) { pthread_mutex_unlock(l); verif_post(VOP_UNLOCK,(void*)l,1,1); }
 #define mi_lock_try_acquire(l)   verif_lock_try(l)
 #define mi_lock_acquire(l)       verif_lock_acquire(l)
+#define mi_lock_release(l)       verif_lock_release(l)
 
 #endif
